@@ -1,6 +1,137 @@
 /-
-  C07 — property theorems (stub; to be filled in).
+  C07 — "One shared handle can be used from many goroutines at once, including first use".
+
+  What is proved here is the *logic* part: the schema-cache protocol (Model.SchemaCache, an LTS over
+  goroutines × model types with an arbitrary relation graph) for ARBITRARY schedules, and (Lemmas.SharedWrites,
+  over regenerated facts) which shared locations are assigned outside constructors at all.
+  Data-race freedom itself is a Go-memory-model matter: judged by the race detector on sampled schedules (partial).
 -/
+import GormModel.Model.SchemaCache
+import GormModel.Lemmas.SchemaCache
+import GormModel.Lemmas.SharedWrites
+import GormModel.Lemmas.WhereSwap
 namespace Gorm
+open Gorm.SchemaCache
+
+/-- state reached from the cold cache by threads with top-level programs `progs` under schedule `sched` -/
+def scReach (c : Cfg) (progs : List (List Nat)) (sched : List Nat) : State := run c (init progs) sched
+
+/-- Every caller of `Parse` (top level or nested via getOrParse→Parse) returns only after the returned schema's
+  `initialized` channel is closed — and it stays closed. -/
+theorem C07_parse_waits (c : Cfg) (progs : List (List Nat)) (sched : List Nat) :
+    ∀ r ∈ (scReach c progs sched).rets,
+      r.closedAtRet = true ∧ ((scReach c progs sched).objs r.obj).closed = true :=
+  fun r hr => SchemaCache.rets_closed c progs sched r hr
+
+/-- Single winner: all error-free returns of `Parse` for one model type deliver the same schema object,
+  whatever the schedule, the number of goroutines and the relation graph. -/
+theorem C07_cache_single_winner (c : Cfg) (progs : List (List Nat)) (sched : List Nat) :
+    ∀ r1 ∈ (scReach c progs sched).rets, ∀ r2 ∈ (scReach c progs sched).rets,
+      r1.ty = r2.ty → r1.err = false → r2.err = false → r1.obj = r2.obj :=
+  fun r1 h1 r2 h2 => SchemaCache.single_winner c progs sched r1 h1 r2 h2
+
+/-- What `Parse` returns without error is a schema of the requested type with ALL its own relations set. -/
+theorem C07_returned_complete (c : Cfg) (progs : List (List Nat)) (sched : List Nat) :
+    ∀ r ∈ (scReach c progs sched).rets, r.err = false →
+      ((scReach c progs sched).objs r.obj).ty = r.ty ∧ r.nrelAtRet = (relsOf c r.ty).length :=
+  fun r hr => SchemaCache.returned_complete c progs sched r hr
+
+/-- Deadlock freedom: in every reachable state in which some goroutine has not finished, some goroutine can step
+  (the wait-for graph over `initialized` channels is acyclic: publication stamps strictly increase along it). -/
+theorem C07_cache_deadlock_free (c : Cfg) (progs : List (List Nat)) (sched : List Nat) :
+    (∃ t, doneT (scReach c progs sched) t = false) → ∃ t, (step c (scReach c progs sched) t).isSome = true :=
+  SchemaCache.deadlock_free c progs sched
+
+
+/-! ### partial results: hypothesis = negation of the F10/F12 pattern (no relation between DIFFERENT model types) -/
+
+/-- Without relations between different model types, getOrParse only ever hands a parser a schema allocated by its own
+  goroutine (the self reference): no goroutine receives another goroutine's unfinished schema. -/
+theorem C07_getOrParse_own_partial (c : Cfg) (h : OnlySelfRels c) (progs : List (List Nat)) (sched : List Nat) :
+    ∀ g ∈ (scReach c progs sched).gets, ((scReach c progs sched).objs g.obj).ownT = g.tid :=
+  SchemaCache.gets_own_partial c h progs sched
+
+/-- … and no back reference is ever written into any schema object (so nothing is written into a schema after it was returned). -/
+theorem C07_backref_none_partial (c : Cfg) (h : OnlySelfRels c) (progs : List (List Nat)) (sched : List Nat) :
+    ∀ o, ((scReach c progs sched).objs o).backs = [] :=
+  SchemaCache.backs_nil_partial c h progs sched
+
+/-- In general (any relation graph): what getOrParse hands out has at least been published by LoadOrStore and is a schema
+  of the relation's target type — its fields are complete, its relations possibly not. -/
+theorem C07_getOrParse_published (c : Cfg) (progs : List (List Nat)) (sched : List Nat) :
+    ∀ g ∈ (scReach c progs sched).gets,
+      ((scReach c progs sched).objs g.obj).stamp ≠ 0 ∧
+      ∃ r, (relsOf c g.ty)[g.k]? = some r ∧ ((scReach c progs sched).objs g.obj).ty = r.target :=
+  SchemaCache.gets_published c progs sched
+
+/-- non-vacuity of the hypothesis: a self-referential model (manager / team) -/
+example : OnlySelfRels [[⟨0, false, false⟩, ⟨0, true, false⟩]] := by
+  intro ty r hr
+  match ty with
+  | 0 => simp [relsOf] at hr; rcases hr with h | h <;> simp [h]
+  | n + 1 => simp [relsOf] at hr
+
+/-! ### negative results (kernel-checked concrete schedules) -/
+
+/-- two mutually related models: type 0 has-many type 1, type 1 belongs-to type 0 -/
+def scCfgAB : Cfg := [[⟨1, true, false⟩], [⟨0, false, false⟩]]
+
+/-- thread 0 parses type 0 and publishes it; thread 1 parses type 1, and its parseRelation obtains type 0's schema
+  through getOrParse before thread 0 has set any relation (steps: t0 call,load1,tableName,load2,los ; t1 call,load1,
+  tableName,load2,los,rel 0). -/
+def scSchedPartial : List Nat := [0, 0, 0, 0, 0, 1, 1, 1, 1, 1, 1]
+
+/-- F10 at model level: getOrParse hands out a schema whose `initialized` is not closed and whose relations are
+  incomplete (the real parser of that schema is concurrently writing `Relationships.Relations`). -/
+theorem C07_getOrParse_sees_partial_example :
+    ∃ g ∈ (scReach scCfgAB [[0], [1]] scSchedPartial).gets,
+      g.closedAtGet = false ∧ g.nrelAtGet < (relsOf scCfgAB ((scReach scCfgAB [[0], [1]] scSchedPartial).objs g.obj).ty).length := by
+  refine ⟨⟨1, 1, 0, 0, false, 0⟩, ?_, ?_⟩ <;> decide
+
+
+/-- the schedule of `C07_getOrParse_sees_partial_example` continued: thread 1 finishes its parse of type 1 (fin1, fin2:
+  the schema is closed and RETURNED to the goroutine), then thread 0 continues with its first relation field -/
+def scSchedLateBack1 : List Nat := scSchedPartial ++ [1, 1, 1, 1]
+def scSchedLateBack2 : List Nat := scSchedLateBack1 ++ [0, 0]
+
+/-- F12 at model level: a back reference is written (under Mux) into a schema object that is already closed and has been
+  returned to a caller — who reads `Relationships.Relations` without taking Mux. -/
+theorem C07_backref_after_return_example :
+    (∃ r ∈ (scReach scCfgAB [[0], [1]] scSchedLateBack1).rets, r.obj = 1 ∧ r.err = false ∧ r.closedAtRet = true) ∧
+    ((scReach scCfgAB [[0], [1]] scSchedLateBack1).objs 1).backs = [] ∧
+    ((scReach scCfgAB [[0], [1]] scSchedLateBack2).objs 1).backs = [(0, 0)] := by
+  refine ⟨⟨⟨1, 1, 1, false, false, true, 1⟩, ?_, ?_⟩, ?_, ?_⟩ <;> decide +kernel
+
+/-! ### clause.Where.Build on a shared handle (finding F11) -/
+
+open Gorm.WhereSwap in
+/-- A statement built from a shared handle assigns NO cell of the handle's `Exprs` array unless the WHERE list starts with a
+  single Or (extra hypothesis = negation of the F11 pattern). -/
+theorem C07_where_build_readonly_partial (es : List EK) (h : es.head? ≠ some .singleOr) : writes es = [] :=
+  writes_nil_of_head es h
+
+open Gorm.WhereSwap in
+/-- exact characterisation of when `Where.Build` writes to the shared array -/
+theorem C07_where_build_writes_iff (es : List EK) :
+    writes es ≠ [] ↔ (es.head? = some .singleOr ∧ EK.other ∈ es) :=
+  writes_ne_nil_iff es
+
+open Gorm.WhereSwap in
+/-- F11: `db.Or(a).Where(b)` — Build swaps cells 0 and 1 of the shared array in place -/
+theorem C07_where_swap_write_counterexample : writes [EK.singleOr, EK.other] = [0, 1] := by decide
+
+/-- a model whose only relation field is invalid -/
+def scCfgBad : Cfg := [[⟨0, false, true⟩]]
+
+/-- Why `single_winner` speaks about error-free returns only: after a failed parse the entry is deleted and the next
+  caller builds a second schema object for the same type (both are returned, each with an error). -/
+theorem C07_error_reparse_example :
+    ∃ r1 ∈ (scReach scCfgBad [[0, 0]] (List.replicate 24 0)).rets,
+    ∃ r2 ∈ (scReach scCfgBad [[0, 0]] (List.replicate 24 0)).rets,
+      r1.ty = r2.ty ∧ r1.obj ≠ r2.obj ∧ r1.err = true ∧ r2.err = true := by
+  refine ⟨⟨0, 0, 1, true, false, true, 0⟩, ?_, ⟨0, 0, 0, true, false, true, 0⟩, ?_, ?_⟩ <;> decide +kernel
+
+/-- non-vacuity: a schedule on the cyclic graph in which both goroutines finish, returning the single winners -/
+example : (scReach scCfgAB [[0, 1], [1, 0]] (List.replicate 40 0 ++ List.replicate 40 1)).rets.length = 5 := by decide +kernel
 
 end Gorm
